@@ -18,6 +18,8 @@ pub fn size(s: &Size<usize>) -> Value {
     match s {
         Size::Any => json!({"c": "none", "lb": 0, "ub": 0, "ext": false}),
         Size::Fix(n, e) => json!({"c": "sz", "lb": n, "ub": n, "ext": e}),
+        // an upper bound of MAX (carried as i64::MAX) is printed as -1: Grammar!GSz(.., "lbMax")
+        Size::Range(a, b, e) if *b >= i64::MAX as usize => json!({"c": "sz", "lb": a, "ub": -1, "ext": e}),
         Size::Range(a, b, e) => json!({"c": "sz", "lb": a, "ub": b, "ext": e}),
     }
 }
